@@ -97,7 +97,8 @@ def _pipeline(rows, kind, cond):
     """Run the real code; returns True iff the file is KEPT for filter {'c': cond}."""
     schema = Schema(schema_id=1, fields=[{"id": 3, "name": "other", "type": "long", "required": False},
                                          {"id": FIELD_ID, "name": "c", "type": ICE[kind], "required": False}])
-    table = ShimTable({"c": ShimColumn(rows, PA[kind])})
+    # a second column with ordinary bounds, so the file HAS bound maps even when the filtered column gets none
+    table = ShimTable({"c": ShimColumn(rows, PA[kind]), "other": ShimColumn(list(range(len(rows))), PA["int"])})
     dfm = DataFileManager.__new__(DataFileManager)
     old_pc = pa.compute
     old_json, old_avro = fmod.json, fmod.fastavro
@@ -154,6 +155,22 @@ def str_scalar(r0: Optional[str], r1: Optional[str], v: str) -> bool:
     post: _
     """
     return _sound([r0, r1], "str", v)
+
+
+LONG = "p" * 40  # longer than any plausible bound-truncation width
+
+
+def strlong_scalar(r0: str, r1: str, v: str) -> bool:
+    """
+    pre: len(r0) <= 1 and len(r1) <= 1 and len(v) <= 1
+    post: _
+    """
+    # long values sharing a 40-character prefix: the stored bounds must still cover the true maximum
+    return _sound([LONG + r0, LONG + r1], "str", LONG + v)
+
+
+def strlong_scalar__samples():
+    return [("a", "b", "b"), ("", "z", "y"), ("b", "b", "b")]
 
 
 def bool_scalar(r0: Optional[bool], r1: Optional[bool], r2: Optional[bool], v: bool) -> bool:
@@ -321,7 +338,7 @@ def _sig(*args):
     return f"op={OP}:{'nan-row' if has_nan else 'no-nan'}"
 
 
-int_scalar__signature = float_scalar__signature = str_scalar__signature = bool_scalar__signature = _sig
+int_scalar__signature = float_scalar__signature = str_scalar__signature = bool_scalar__signature = strlong_scalar__signature = _sig
 for _k in ("int", "float", "str"):
     for _n in (0, 1, 2):
         globals()[f"{_k}_list{_n}__signature"] = _sig
@@ -343,10 +360,11 @@ def e2e_grid(kind="float"):
     t0 = _t.time()
     n_shim = validate_minmax_against_pyarrow()
     grids = {
-        "float": ("double", [[NAN, 0.5], [0.5, 0.5], [None, 1.0, 2.0], [NAN], [-INF, INF], [None, None]],
-                  [0.5, 1.0, 3.0, -INF]),
+        "float": ("double", [[NAN, 0.5], [0.5, 0.5], [None, 1.0, 2.0], [NAN], [-INF, INF], [None, None], [NAN, 7.0, 9.0]],
+                  [0.5, 1.0, 3.0, -INF, 8.0]),
         "int": ("long", [[1, 1], [None, 2 ** 53 + 1, 2 ** 53], [-5, 5], [None]], [1, 2 ** 53, 2 ** 53 + 1, 0]),
-        "str": ("string", [["10", "9"], ["a", None], ["é", "z"], [""]], ["9", "10", "a", "", "z"]),
+        "str": ("string", [["10", "9"], ["a", None], ["é", "z"], [""], ["u" * 40 + "a", "u" * 40 + "z"], ["u" * 17, "u" * 33]],
+                ["9", "10", "a", "", "z", "u" * 40 + "m", "u" * 40 + "z", "u" * 20]),
         "float32": ("float", [[0.1, 0.2], [NAN, 1.5], [16777216.0, 16777217.0]], [0.1, 0.2, 1.5, 16777216.0]),
         "date": ("date", [[date(2024, 1, 1), date(2024, 12, 31)], [None, date(1969, 12, 31)]],
                  [date(2024, 1, 1), date(2024, 6, 1), date(1969, 12, 31)]),
@@ -430,6 +448,9 @@ def obligations(tier):
                           bounds=f"{kind} column, {nr} rows Optional[{kind}]"
                                  f"{' len<=2' if kind == 'str' else ''}, symbolic literal, operator {op}",
                           weight=5 if kind in ("float", "str") else 3))
+    for op in ("==", ">", ">=", "<", "<="):
+        obs.append(Ob(f"sym.strlong.{op}", "vf.props.c13:strlong_scalar", {"OP": op}, engine="crosshair", timeout=T,
+                      bounds=f"string column, 2 rows = 40-char common prefix + symbolic suffix (len <= 1), literal likewise, operator {op}", weight=4))
     for op in ("in", "not_in"):
         for kind in ("int", "float", "str"):
             if tier == "quick" and kind == "str":
